@@ -69,6 +69,28 @@ theorem C13_returned_range_covers_request (cfg : Config) (wd : String → Nat) (
     have := cover_spec _ _ root 0 .markup n _ mode hcov
     exact ⟨this.1, this.2.1, by simpa using this.2.2.2.2⟩
 
+/-- T13.2 (which node): the node that is formatted is a node *of the tree*, starting at the offset
+that is returned — the replacement range is a node boundary, never the middle of a token. -/
+theorem C13_covering_node_is_a_tree_node (s e : Nat) (root n : ENode) (off : Nat) (mode : LMode)
+    (h : cover s e root 0 .markup = some (n, off, mode)) : Occurs root 0 n off :=
+  cover_occurs s e root 0 .markup n off mode h
+
+/-- T13.2 (innermost): no Markup, expression or pattern strictly inside the covering node contains the
+request — range formatting touches the smallest unit it can. -/
+theorem C13_covering_node_is_innermost (s e : Nat) (root n : ENode) (off : Nat) (mode : LMode)
+    (h : cover s e root 0 .markup = some (n, off, mode)) :
+    ∀ c pre post, n.children = pre ++ c :: post → ∀ m off', Occurs c (off + ENode.lenL pre) m off' →
+      ¬ (off' ≤ s ∧ e ≤ off' + m.len ∧ isCoverKind m.kind = true) := by
+  intro c pre post hc m off' ho
+  have hn := cover_minimal s e root 0 .markup n off mode h .markup
+  exact coverL_complete s e n.children off .markup hn pre c post hc m off' ho
+
+/-- T13.3 (refusal is justified): the request is refused for want of a covering node only when no
+Markup, expression or pattern of the tree contains the trimmed range at all. -/
+theorem C13_no_cover_means_nothing_contains_the_range (s e : Nat) (root : ENode) (h : cover s e root 0 .markup = none) :
+    ∀ m off', Occurs root 0 m off' → ¬ (off' ≤ s ∧ e ≤ off' + m.len ∧ isCoverKind m.kind = true) :=
+  cover_complete s e root 0 .markup h
+
 /-- T13.3: an erroneous covering node is refused, never formatted. -/
 theorem C13_erroneous_node_is_refused (cfg : Config) (wd : String → Nat) (src : String) (root : ENode) (a b : Nat)
     (n : ENode) (off : Nat) (mode : LMode)
